@@ -27,7 +27,8 @@ func (P) ID() string { return "C14" }
 //           a<id>@<n>  BlockChain.IsDeploymentActive(id) with tip n                 -> 0/1  | err
 //           d<id>@<n>  deploymentState(n, id) (what validate.go consults)          -> 0..4 | err
 //           v@<n>      BlockChain.CalcNextBlockVersion() with tip n                 -> hex uint32
-//           c<id>      dump of deployment id's cache: one char per tree node, state digit or '-'
+//           c<id>      cache soundness of deployment id: "ok" iff every cached entry equals the answer of
+//                      a fresh instance for that node (only emitted on histories inside the hypotheses)
 //           w<bit>@<n> thresholdState with the unknown-rules bit checker            -> 0..4
 //         n = -1 is "no block yet" (nil tip). All queries of a line run on ONE chain instance, in order.
 
@@ -101,8 +102,13 @@ func (P) Exec(line string) string {
 	if len(deps) != chaincfg.DefinedDeployments {
 		return "bad-op"
 	}
-	c := blockchain.VerifC14New(newParams(window, threshold, deps))
-	n := 0
+	type nodeSpec struct {
+		parent  int
+		version int32
+		ts      int64
+		length  int
+	}
+	var specs []nodeSpec
 	for i, s := range strings.Split(f[5], ",") {
 		pvt := strings.Split(s, ":")
 		par := int(i64(pvt[0]))
@@ -113,9 +119,21 @@ func (P) Exec(line string) string {
 		if err != nil {
 			panic(err)
 		}
-		c.AddNode(par, int32(uint32(v)), i64(pvt[2]))
-		n++
+		l := 1
+		if par >= 0 {
+			l = specs[par].length + 1
+		}
+		specs = append(specs, nodeSpec{par, int32(uint32(v)), i64(pvt[2]), l})
 	}
+	build := func() *blockchain.VerifC14Chain {
+		c := blockchain.VerifC14New(newParams(window, threshold, deps))
+		for _, ns := range specs {
+			c.AddNode(ns.parent, ns.version, ns.ts)
+		}
+		return c
+	}
+	c := build()
+	n := len(specs)
 	var out []string
 	for _, q := range strings.Split(f[6], ",") {
 		kind := q[0]
@@ -162,15 +180,28 @@ func (P) Exec(line string) string {
 			st, err := c.WarningStateAt(int(node), uint32(arg))
 			out = append(out, stStr(st, err))
 		case 'c':
-			var sb strings.Builder
-			for i := 0; i < n; i++ {
-				if st, ok := c.CachedStateAt(i, uint32(arg)); ok {
-					sb.WriteByte('0' + byte(st))
-				} else {
-					sb.WriteByte('-')
+			// cache soundness, independent of the caching policy: every entry of deployment arg's
+			// cache must equal what a fresh instance answers for that node (entries hold the plain
+			// BIP9 state, so nodes at/after the always-active height are skipped).
+			if arg >= int64(len(deps)) {
+				return "bad-op"
+			}
+			fresh := build()
+			res := "ok"
+			for i := 0; i < n && res == "ok"; i++ {
+				st, ok := c.CachedStateAt(i, uint32(arg))
+				if !ok {
+					continue
+				}
+				if aah := deps[arg].aah; aah != 0 && uint32(specs[i].length) >= aah {
+					continue
+				}
+				want, err := fresh.DeploymentStateAt(i, uint32(arg))
+				if err != nil || want != st {
+					res = fmt.Sprintf("bad:%d", i)
 				}
 			}
-			out = append(out, sb.String())
+			out = append(out, res)
 		default:
 			return "bad-op"
 		}
